@@ -60,23 +60,39 @@ theorem runLoop_full (N s st k g' : Nat) (hk : k + st = g') (hst : 0 < st) (tail
     have e2 : j + 1 + m = j + (m + 1) := by omega
     rw [e2, List.map_cons, List.cons_append]
 
+/-- the multi-block formulas (range longer than one gulp) -/
+def nreadsM (g n k : Nat) : Nat :=
+  let st := geff g n - k
+  if n % st < k then n / st - 1 else n / st
+def lastreadM (g n k : Nat) : Nat :=
+  let st := geff g n - k
+  if n % st < k then n - (n / st - 1) * st else n % st
+
+theorem nreads_multi (g n k : Nat) (h : geff g n ≠ n) : nreads g n k = nreadsM g n k := by
+  simp [nreads, nreadsM, h]
+theorem lastread_multi (g n k : Nat) (h : geff g n ≠ n) : lastread g n k = lastreadM g n k := by
+  simp [lastread, lastreadM, h]
+theorem nreads_single (g n k : Nat) (h : geff g n = n) : nreads g n k = 0 := by simp [nreads, h]
+theorem lastread_single (g n k : Nat) (h : geff g n = n) : lastread g n k = n := by simp [lastread, h]
+
 /-- arithmetic of an accepted plan -/
 structure Arith (g n k : Nat) : Prop where
   hk : k < geff g n
   hlast : k ≤ lastread g n k
   total : nreads g n k * (geff g n - k) + lastread g n k = n
   lastle : lastread g n k ≤ geff g n
-  nr : 1 ≤ nreads g n k
+  nr : nreads g n k = 0 → lastread g n k = n
 
-theorem arith_of (g n k : Nat) (hk : k < geff g n) (hl : ¬ lastread g n k < k) : Arith g n k := by
+private theorem arithM (g n k : Nat) (hk : k < geff g n) (_hl : ¬ lastreadM g n k < k) :
+    nreadsM g n k * (geff g n - k) + lastreadM g n k = n ∧ lastreadM g n k ≤ geff g n ∧ 1 ≤ nreadsM g n k := by
   have hgn : geff g n ≤ n := Nat.min_le_left _ _
   have hst : 0 < geff g n - k := by omega
   have hdm := Nat.div_add_mod n (geff g n - k)
   have hml := Nat.mod_lt n hst
   have hq : 1 ≤ n / (geff g n - k) := by
     apply (Nat.one_le_div_iff hst).mpr; omega
-  refine ⟨hk, by omega, ?_, ?_, ?_⟩
-  all_goals (unfold nreads lastread at *; simp only at *)
+  refine ⟨?_, ?_, ?_⟩
+  all_goals (unfold nreadsM lastreadM at *; simp only at *)
   · split
     · rename_i hr
       have hle : (n / (geff g n - k) - 1) * (geff g n - k) ≤ n := by
@@ -96,11 +112,21 @@ theorem arith_of (g n k : Nat) (hk : k < geff g n) (hl : ¬ lastread g n k < k) 
     · omega
   · split
     · rename_i hr
-      -- q = 1 would give n = st + r < st + k = g' ≤ n
       rcases Nat.lt_or_ge 1 (n / (geff g n - k)) with h | h
       · omega
       · have hq1 : n / (geff g n - k) = 1 := by omega
         rw [hq1] at hdm; omega
     · exact hq
+
+theorem arith_of (g n k : Nat) (hk : k < geff g n) (hl : ¬ lastread g n k < k) : Arith g n k := by
+  by_cases hs : geff g n = n
+  · have h1 := nreads_single g n k hs
+    have h2 := lastread_single g n k hs
+    exact ⟨hk, by omega, by rw [h1, h2]; simp, by omega, fun _ => h2⟩
+  · have h1 := nreads_multi g n k hs
+    have h2 := lastread_multi g n k hs
+    rw [h2] at hl
+    obtain ⟨a, b, c⟩ := arithM g n k hk hl
+    exact ⟨hk, by omega, by rw [h1, h2]; exact a, by omega, fun h0 => by omega⟩
 
 end SppModel.Plan
